@@ -27,7 +27,7 @@ def run_property(prop: str, tier: str, repo_root: str, evidence_dir: str, known_
     ck = Check(prop, repo, tier, seed)
     for f in getattr(repo, "canon_failures", []):
         ck.note("load-time canonicalisation skipped (%s): refactorings it would have absorbed may be reported" % f)
-    canon = {k: getattr(repo, k) for k in ("memo_attributes", "helper_objects_expanded", "context_managers_expanded", "generators_rewritten") if getattr(repo, k, None)}
+    canon = {k: getattr(repo, k) for k in ("decorators_expanded", "memo_attributes", "helper_objects_expanded", "context_managers_expanded", "generators_rewritten") if getattr(repo, k, None)}
     if canon:
         ck.stats["load-time rewrites"] = {k: (dict(v) if isinstance(v, dict) else v) for k, v in canon.items()}
     try:
